@@ -315,3 +315,25 @@ Proof.
   intros H98. destruct (G (S (length b)) (jinit ps) [] ltac:(unfold JInv, jinit; cbn; lia) H98) as [E|E]; [discriminate|].
   unfold jinit in E. cbn [j_off] in E. rewrite Nat2Z.inj_succ in E. fold size in E. clear -E. assert (0 <= size) by (unfold size; lia). lia.
 Qed.
+
+(* ---- the page size a valid log header names ---- *)
+Require Import LF.Proofs.XorLib.
+Local Open Scope N_scope.
+Lemma wal_ps_ok_aligned v : wal_ps_ok v = true -> v mod 8 = 0.
+Proof.
+  intros H.
+  assert (Hr : 512 <= v < 512 + N.of_nat (N.to_nat 65025)).
+  { rewrite N2Nat.id. unfold wal_ps_ok in H. apply andb_true_iff in H. destruct H as [H _].
+    apply andb_true_iff in H. destruct H as [H1 H2]. apply N.leb_le in H1. apply N.leb_le in H2. lia. }
+  apply seqN_in in Hr.
+  assert (A : forallb (fun x => implb (wal_ps_ok x) (x mod 8 =? 0)) (seqN 512 (N.to_nat 65025)) = true) by (vm_compute; reflexivity).
+  rewrite forallb_forall in A. specialize (A v Hr). rewrite H in A. cbn [implb] in A. apply N.eqb_eq in A. exact A.
+Qed.
+Lemma wal_header_page_size b h : wal_read_header b = HOk h -> wal_ps_ok (wh_ps h) = true /\ wh_ps h mod 8 = 0.
+Proof.
+  unfold wal_read_header. destruct (sub b 0 32) as [hdr|]; [|discriminate].
+  destruct (negb _); [discriminate|]. destruct (wal_checksum _ 0 0 _) as [c1 c2].
+  destruct (negb (_ && _)); [discriminate|]. destruct (negb (u32 hdr 4 =? 3007000)); [discriminate|].
+  destruct (wal_ps_ok (u32 hdr 8)) eqn:E; cbn [negb]; [|discriminate].
+  intros H. inversion H; subst. cbn [wh_ps]. split; [assumption|apply wal_ps_ok_aligned; assumption].
+Qed.
